@@ -1,4 +1,5 @@
 import SockModel.Model.LocksLemmas
+import SockModel.Model.DispatchQuiesce
 /-!
 # C04  Managing sockets/ToDos against a running driver is safe (exclusion, quiescence)
 
@@ -68,3 +69,47 @@ theorem example_reachable : ∃ s, Reach s ∧ s.d = .atPoll true ∧ s.u 7 = .w
   exact ⟨_, r7, rfl, by simp, rfl⟩
 
 end SockModel.Locks
+
+/-! ## quiescence, data level (dispatch model of `Model/Dispatch.lean`)
+
+`quiescence` above is the lock-level half ("no handler is running when the destructor returns").
+The other half - "... or will ever start" - is a fact about the data the critical section mutates:
+handlers are dispatched only for sockets in `sockets`/`pfds`, `AsyncUnregister` removes the socket
+there, and socket ids are never reused. -/
+namespace SockModel.Dispatch
+
+/-- "once a socket's destructor ... has returned ..., no handler of that socket ... will ever start":
+for every history `pre` (any sockets, peers, steps, handlers destroying sockets), every registered socket
+`i`, and EVERY continuation `post` after `i` was destroyed (peers may keep sending to it, close or
+reset it, other sockets come and go, any number of steps with any readiness order): the handler
+invocations of `i` in the log are exactly those from before its destruction. -/
+theorem destroyed_socket_stays_silent (order : List Nat) (pre post : List Op) (i : Nat) :
+    let s := run order {} pre
+    i ∈ s.socks.map (·.id) →
+      evOf i (run order (apply order s (.destroy i)) post).log = evOf i s.log := by
+  intro s hi
+  have h : DInv s := inv_run inv_init pre
+  have hg := gone_after_destroy (order := order) h hi
+  exact (run_gone (inv_apply h _) hg post).2
+
+/-- the same after the library itself unregistered the socket (`DriverDisconnect`): once the
+disconnect handler of `i` is in the log, `i` is gone for good - in every continuation its handler
+log stays what it is (this is `handler_shape` of C03 seen from the unregistering side). -/
+theorem disconnected_socket_stays_silent (order : List Nat) (pre post : List Op) (i a : Nat) (r : Reason) :
+    let s := run order {} pre
+    Event.disconnect i a r ∈ s.log → evOf i (run order s post).log = evOf i s.log := by
+  intro s hm
+  have h : DInv s := inv_run inv_init pre
+  have hg : Gone s i := ⟨h.evSock _ hm, (h.addrOk i a r hm).2⟩
+  exact (run_gone h hg post).2
+
+/-- non-vacuity: a client socket receives data, is destroyed, the peer keeps sending and closes, the
+driver keeps stepping - nothing more is delivered to it -/
+example :
+    let pre : List Op := [.newClient 9 4, .peerSend 0 [1, 2, 3], .step false 8 4 []]
+    let post : List Op := [.peerSend 0 [4, 5], .step false 8 4 [], .peerClose 0, .step false 8 4 []]
+    (run [0, 1, 2] {} pre).log = [.data 0 [1, 2, 3] 4] ∧
+    (run [0, 1, 2] (apply [0, 1, 2] (run [0, 1, 2] {} pre) (.destroy 0)) post).log = [.data 0 [1, 2, 3] 4] := by
+  decide
+
+end SockModel.Dispatch
